@@ -122,3 +122,126 @@ SPECS['C06'] = {
              entry=['write_struct_dtime']),
     ],
 }
+
+IO = R + 'io:'
+GLUE_FUNCS = ['DLISWriter.write_logical_records', 'DLISWriter._make_visible_record', 'DLISWriter._check_output_chunk_size',
+              'BufferedOutput.__init__', 'BufferedOutput.add_bytes', 'BufferedOutput.pass_bytes_to_writer',
+              'ByteWriter.write_bytes', 'ByteWriter.total_size']
+_glue = [
+    dict(fn=H + 'c10.ob_wiring', kind='universal', timeout=(120, 300), replay=IO + 'replay_glue',
+         bounds='every even vrl in [20,16384]; 0..3 segments per record, two records; segment sizes 16..vrl-4; any chunk size',
+         entry=['DLISWriter.write_logical_records']),
+    dict(fn=H + 'c10.reach_wiring', kind='reach', timeout=(60, 60), validate=IO + 'replay_glue'),
+    dict(fn=H + 'c10.ob_glue', kind='universal', timeout=(500, 2400), replay=IO + 'replay_glue',
+         bounds=('vrl even in [20,64]; L1<=vrl+12, L2<=vrl-8; chunk in [vrl,3*vrl] (monolithic wiring check)',
+                 'vrl even in [20,128]; L1,L2<=vrl+12; chunk in [vrl,3*vrl]'),
+         entry=['DLISWriter.write_logical_records', 'LogicalRecordBytes.make_segments', 'BufferedOutput.add_bytes']),
+    dict(fn=H + 'c10.reach_glue', kind='reach', timeout=(120, 120), validate=IO + 'replay_glue'),
+    dict(fn=H + 'c10.wit_glue_multi', kind='witness', timeout=(120, 120), validate=IO + 'replay_glue'),
+]
+_buffer = [
+    dict(fn=H + 'c10.ob_buffer_step', kind='universal', timeout=(120, 300), replay=IO + 'replay_buffer_step',
+         bounds='buffer 20..2**33, any fill, two adds of 20..16384 bytes, final flush', entry=['BufferedOutput.add_bytes']),
+    dict(fn=H + 'c10.reach_buffer_step', kind='reach', timeout=(60, 60), validate=IO + 'replay_buffer_step'),
+    dict(fn=H + 'c10.wit_buffer_two_flushes', kind='witness', timeout=(60, 60), validate=IO + 'replay_buffer_step'),
+    dict(fn=H + 'c10.ob_bytewriter', kind='universal', timeout=(120, 300), replay=IO + 'replay_bytewriter',
+         bounds='prior content 0..1e6 bytes; three writes of 1..1e6 bytes; explicit/implicit size', entry=['ByteWriter.write_bytes']),
+    dict(fn=H + 'c10.reach_bytewriter', kind='reach', timeout=(60, 60), validate=IO + 'replay_bytewriter'),
+    dict(fn=H + 'c10.ob_chunk_size', kind='universal', timeout=(60, 120), replay=IO + 'replay_chunk_size',
+         bounds='all integers', entry=['DLISWriter._check_output_chunk_size']),
+    dict(fn=H + 'c10.reach_chunk_size', kind='reach', timeout=(60, 60)),
+]
+_lrtype = [
+    dict(fn=H + 'c10.ob_lr_type', kind='universal', timeout=(300, 300), replay=IO + 'replay_lr_type',
+         bounds='all ordered pairs of the logical record classes found by introspection (finite, exhaustive)',
+         entry=['LRMeta.lr_type_struct']),
+    dict(fn=H + 'c10.reach_lr_type', kind='reach', timeout=(120, 120)),
+]
+IO_STUBS = ['StructShim', 'Rope', 'RopeArray', 'MemWriter', 'FakeFS', 'identity progressbar']
+SPECS['C01']['obligations'] += _glue
+SPECS['C01']['functions'] += GLUE_FUNCS
+SPECS['C01']['stubs'] += IO_STUBS
+
+SPECS['C02'] = {
+    'functions': SEG_FUNCS + GLUE_FUNCS + ['LRMeta.lr_type_struct', 'LogicalRecord.represent_as_bytes'],
+    'stubs': IO_STUBS, 'cuts': CUTS, 'assumptions': CH_ASSUME + SMT_ASSUME,
+    'outside': ['byte-for-byte equality relies on Python bytes slicing/concatenation (trusted primitive): the solver '
+                'proves which source ranges end up where', 'more than two records per run (wiring is per record)'],
+    'selftests': ['venv:vf.stubs.selftest:selftest_rope_struct'],
+    'obligations': [
+        dict(fn=H + 'c01.ob_seg_contract', kind='universal', timeout=(120, 400), replay=R + 'layout:replay_seg_and_file',
+             bounds=SPECS['C01']['obligations'][0]['bounds'], entry=['LogicalRecordBytes.make_segments']),
+        dict(fn=H + 'c01.reach_seg_contract', kind='reach', timeout=(60, 60), validate=R + 'layout:replay_seg_and_file'),
+        dict(fn=H + 'c01.wit_seg_three_shortened_padded', kind='witness', timeout=(60, 60), validate=R + 'layout:replay_seg_and_file'),
+        dict(fn=K + 'k2_segment_step', kind='smt', engine='smt', timeout=(300, 300), replay=R + 'layout:replay_seg_and_file',
+             bounds='ALL body lengths and capacities (LIA over Z)', entry=['LogicalRecordBytes.make_segments']),
+    ] + _glue + _lrtype,
+}
+
+SPECS['C10'] = {
+    'functions': GLUE_FUNCS,
+    'stubs': IO_STUBS, 'cuts': CUTS, 'assumptions': CH_ASSUME,
+    'outside': ['float-valued output_chunk_size (float % 1 is outside engine A; integral floats are exercised by replays only)',
+                'input_chunk_size independence is obligation O3.1/O3.2 (C03) and is listed there',
+                'the operating system honouring open(..., "wb"/"ab")'],
+    'selftests': ['venv:vf.stubs.selftest:selftest_rope_struct', 'venv:vf.stubs.selftest:selftest_memio'],
+    'obligations': _buffer + _glue,
+}
+
+SPECS['C16'] = {
+    'functions': ['NoFormatFrameData.__init__', 'NoFormatFrameData._make_body_bytes', 'LogicalRecord.represent_as_bytes',
+                  'write_struct_obname', 'EFLRItem.obname', 'LogicalFile.add_no_format_frame_data', 'DLISFile.generator'],
+    'stubs': ['StructShim', 'Rope', 'BytesRope/BytearrayRope', 'LenStr'], 'cuts': CUTS, 'assumptions': CH_ASSUME,
+    'outside': ['payload byte values (content abstract: the solver proves that exactly the payload range follows the '
+                'reference)', 'survival through segmentation is C02'],
+    'selftests': ['venv:vf.stubs.selftest:selftest_rope_struct'],
+    'obligations': [
+        dict(fn=H + 'c16.ob_noformat_body', kind='universal', timeout=(120, 300), replay=R + 'noformat:replay_noformat',
+             bounds=('origin<2**30, copy<=255, name 1..255 chars, payload 0..40000 bytes; bytes/bytearray/str',
+                     'payload up to 2**30 bytes'), entry=['NoFormatFrameData._make_body_bytes']),
+        dict(fn=H + 'c16.reach_noformat_body', kind='reach', timeout=(60, 60), validate=R + 'noformat:replay_noformat'),
+        dict(fn=H + 'c16.wit_noformat_short', kind='witness', timeout=(60, 60), validate=R + 'noformat:replay_noformat'),
+        dict(fn=H + 'c16.ob_noformat_text', kind='universal', timeout=(120, 300), replay=R + 'noformat:replay_noformat',
+             bounds='symbolic ASCII text, len<=3', entry=['NoFormatFrameData._make_body_bytes']),
+        dict(fn=H + 'c16.reach_noformat_text', kind='reach', timeout=(60, 60), validate=R + 'noformat:replay_noformat'),
+        dict(fn=H + 'c09.ob_order', kind='universal', timeout=(400, 900), shards=(8, 8), replay=R + 'order:replay_order',
+             bounds='24 orders of (origin, channel+frame, zones, no-format+3 payloads over 2 objects) x named sets x 1..2 origins (finite, exhaustive)',
+             entry=['DLISFile.generator', 'LogicalFile.add_no_format_frame_data']),
+        dict(fn=H + 'c09.reach_order', kind='reach', timeout=(120, 120), validate=R + 'order:replay_order'),
+    ],
+}
+
+ITEM_FUNCS = ['Attribute.get_as_bytes', 'Attribute._write_for_body', 'Attribute._write_for_template', 'Attribute._write_values',
+              'Attribute.count', 'Attribute.flatten_list', 'Attribute.representation_code', 'Attribute._guess_repr_code',
+              'Attribute.inferred_representation_code', 'Attribute.convert_value', 'Attribute.converter', 'Attribute.units',
+              'EFLRSet._make_set_component_bytes', 'EFLRSet._make_template_bytes', 'EFLRSet._make_body_bytes',
+              'EFLRSet.register_item', 'EFLRItem.__init__', 'EFLRItem.make_item_body_bytes', 'EFLRItem._make_attrs_bytes',
+              'EFLRItem._compute_copy_number', 'EFLRItem.set_attributes', 'EFLRItem.attributes',
+              'EFLRAttribute._convert_value', 'EFLROrTextAttribute._convert_value', 'EFLROrTextAttribute._guess_repr_code',
+              'DTimeAttribute._convert_value', 'NumericAttribute._convert_number', 'NumericAttribute._int_parser',
+              'NumericAttribute._float_parser', 'StatusAttribute.convert_status', 'TextAttribute._check_string',
+              'ReprCodeConverter.determine_repr_code_from_value', 'write_struct']
+SPECS['C04'] = {
+    'functions': ITEM_FUNCS + ['FileHeaderSet._make_template_bytes', 'FileHeaderItem._make_attrs_bytes'],
+    'stubs': ['StructShim', 'Rope', 'kint/kfloat (lemma K4)', 'ksetattr'], 'cuts': CUTS + [
+        'items are constructed from concrete arguments outside CrossHair tracing (vf.harness.objmodel.untraced)'],
+    'assumptions': CH_ASSUME + SMT_ASSUME,
+    'outside': ['quick tier: one representative attribute per attribute signature (35 of 169 sites); thorough: all sites',
+                'float values are concrete examples (struct float kernels)', 'lists longer than 4 values (2-byte count form is C06 UVARI)',
+                'subsets of more than one assigned attribute per object (attributes are encoded independently: '
+                'EFLRItem._make_attrs_bytes concatenates per-attribute components)'],
+    'selftests': ['venv:vf.stubs.selftest:selftest_rope_struct', 'real:vf.stubs.selftest:selftest_tokens_vs_strict'],
+    'obligations': [
+        dict(fn=H + 'c04.ob_item', kind='universal', timeout=(400, 1500), shards=(16, 16), replay=R + 'items:replay_item',
+             bounds=('35 attribute signatures x multiplicity {[],1,2,3/nested 2x2} x units x symbolic int (full code range) / symbolic ASCII text len<=2',
+                     'all 169 attribute sites x the same'),
+             entry=['EFLRSet._make_body_bytes', 'Attribute.get_as_bytes']),
+        dict(fn=H + 'c04.reach_item', kind='reach', timeout=(120, 120), validate=R + 'items:replay_item'),
+        dict(fn=H + 'c04.ob_set_struct', kind='universal', timeout=(400, 900), shards=(8, 8), replay=R + 'items:replay_item',
+             bounds='every item class x named/unnamed set x one/two same-named objects (finite, exhaustive)',
+             entry=['EFLRSet._make_set_component_bytes', 'EFLRSet._make_template_bytes', 'EFLRItem.make_item_body_bytes']),
+        dict(fn=H + 'c04.reach_set_struct', kind='reach', timeout=(120, 120), validate=R + 'items:replay_item'),
+        dict(fn=K + 'k4_int_is_integer', kind='smt', engine='smt', timeout=(600, 600), bounds='all 64-bit integers (IEEE-754)',
+             entry=['NumericAttribute._int_parser']),
+    ],
+}
